@@ -372,6 +372,70 @@ theorem final_sound_legacy_partial (c : Consts) (fc : FConsts) (O : Oracle) (idO
             exact (certAt_iff c O n ch s _).1 hfin
   · rw [vf_guard_fail c fc O n ch t s hg] at hfin; cases hfin
 
+/-! ## which (key vector, threshold) pairs the verifier is called with -/
+
+theorem cache_table_mem {O : Oracle} {t : Table} {hash sig mask : Nat} {cids publics : List Nat} {thr : Nat}
+    {e : CKey × Option (List Nat)} (h : e ∈ (cacheVerifyCosi O t hash sig mask cids publics thr).2) :
+    e ∈ t ∨ e.1 = ⟨hash, sig, publics, thr, mask⟩ := by
+  cases hg : tableGet t ⟨hash, sig, publics, thr, mask⟩ with
+  | some v => rw [cacheVerifyCosi_hit hg] at h; exact Or.inl h
+  | none =>
+    rw [cacheVerifyCosi_miss hg] at h
+    rcases List.mem_cons.1 h with h | h
+    · exact Or.inr (by rw [h])
+    · exact Or.inl h
+
+/-- **verify_attempts**: starting from an empty table, the table `verifyFinalization` leaves behind
+    records every `cacheVerifyCosi` call it made; each of them used a key vector and a threshold that
+    form one of the pairs of `finalizationAttempts` — in particular the legacy retry verifies the
+    legacy key vector against the threshold *of the legacy timestamp*. -/
+theorem verify_attempts (c : Consts) (fc : FConsts) (O : Oracle) (n : Node) (ch : Chain) (s : Snap) :
+    ∀ e ∈ (verifyFinalization c fc O n ch [] s).2,
+      ∃ a ∈ finalizationAttempts c n ch s.round (certTs fc s),
+        e.1.publics = a.1.map Prod.snd ∧ e.1.thr = a.2 := by
+  intro e he
+  by_cases hg : guardsOk fc n s
+  · rw [vf_guard_ok c fc O n ch [] s hg] at he
+    have hep : ¬ certTs fc s < n.epoch := by have := hg.2.2.2; omega
+    have hprim : ∀ x ∈ (primary c fc O n ch [] s).2,
+        x.1.publics = (consensusKeys c n ch s.round (certTs fc s)).map Prod.snd ∧
+        x.1.thr = consensusThreshold c n (certTs fc s) true := by
+      intro x hx
+      unfold primary at hx
+      rcases cache_table_mem hx with h | h
+      · cases h
+      · rw [h]; exact ⟨rfl, rfl⟩
+    unfold finalizationAttempts
+    simp only [hep, if_false]
+    by_cases hp : usePredictive c n (certTs fc s) = true
+    · simp only [hp, Bool.or_true, if_true] at he ⊢
+      exact ⟨(consensusKeys c n ch s.round (certTs fc s), consensusThreshold c n (certTs fc s) true), by simp, hprim e he⟩
+    · have hp' : usePredictive c n (certTs fc s) = false := by simpa using hp
+      simp only [hp', Bool.or_false, Bool.false_eq_true, if_false] at he ⊢
+      by_cases h1 : (primary c fc O n ch [] s).1.2 = true
+      · simp only [h1, if_true] at he
+        split
+        · exact ⟨(consensusKeys c n ch s.round (certTs fc s), consensusThreshold c n (certTs fc s) true), by simp, hprim e he⟩
+        · split
+          · exact ⟨(consensusKeys c n ch s.round (certTs fc s), consensusThreshold c n (certTs fc s) true), by simp, hprim e he⟩
+          · exact ⟨_, List.mem_cons_self .., hprim e he⟩
+      · simp only [h1, if_false, Bool.false_eq_true] at he
+        by_cases hw : (decide ((certTs fc s - n.epoch) / c.hour % 24 < c.acceptBegin) ||
+            decide ((certTs fc s - n.epoch) / c.hour % 24 > c.acceptEnd)) = true
+        · simp only [hw, if_true] at he ⊢
+          exact ⟨(consensusKeys c n ch s.round (certTs fc s), consensusThreshold c n (certTs fc s) true), by simp, hprim e he⟩
+        · simp only [hw, if_false, Bool.false_eq_true] at he ⊢
+          by_cases hl : (consensusKeys c n ch s.round (legacyTs c n (certTs fc s))).length ≤
+              (consensusKeys c n ch s.round (certTs fc s)).length
+          · simp only [hl, if_true] at he ⊢
+            exact ⟨(consensusKeys c n ch s.round (certTs fc s), consensusThreshold c n (certTs fc s) true), by simp, hprim e he⟩
+          · simp only [hl, if_false] at he ⊢
+            rcases cache_table_mem he with h | h
+            · exact ⟨_, List.mem_cons_self .., hprim e h⟩
+            · exact ⟨_, List.mem_cons_of_mem _ (List.mem_cons_self ..), by rw [h]; exact ⟨rfl, rfl⟩⟩
+  · rw [vf_guard_fail c fc O n ch [] s hg] at he
+    cases he
+
 /-! ### non-vacuity: 7 genesis nodes, a 5-of-7 certificate is accepted, 4-of-7 is not -/
 def g (i : Nat) : Rec := { ts := 0, id := 1000 + i, signer := i, payee := 200 + i, state := .accepted, tx := 300 + i }
 def node7 : Node := ⟨0, false, 1001, 1, [1001, 1002, 1003, 1004, 1005, 1006, 1007], [g 1, g 2, g 3, g 4, g 5, g 6, g 7]⟩
